@@ -15,10 +15,9 @@
 #include <pika/modules/errors.hpp>
 #include <pika/threading_base/thread_data.hpp>
 
-#include </repo/libs/pika/errors/src/error_code.cpp>
 #include </repo/libs/pika/execution_base/src/agent_ref.cpp>
 
-#include "env.hpp"
+#include "env_errors.hpp"
 
 #ifndef VERIF_MAX_SLOTS
 #define VERIF_MAX_SLOTS 4
@@ -28,15 +27,10 @@
 // slot kinds: 1 = pika task (non-null thread id, distinct per slot), 0 = plain OS thread
 static unsigned char verif_slot_is_task[VERIF_MAX_SLOTS] = {1, 1, 1, 1};
 static long verif_slot_identity[VERIF_MAX_SLOTS];
-static int verif_last_error[VERIF_MAX_SLOTS];    // last pika::error raised on this slot (0 = none)
 static int verif_deadline_passed[VERIF_MAX_SLOTS];
 static int verif_identity_as = -1;    // sequential scenarios: act with the identity of another slot
 static int verif_ident() { return verif_identity_as >= 0 ? verif_identity_as : verif_tid(); }
 
-struct verif_pika_error
-{
-    int code;
-};
 
 namespace pika::threads::detail {
     thread_id_type get_self_id()
@@ -125,42 +119,3 @@ namespace pika::execution::this_thread::detail {
     void suspend(char const* desc) { agent().suspend(desc); }
 }    // namespace pika::execution::this_thread::detail
 
-// ---- errors back end -----------------------------------------------------------------------------------
-namespace pika {
-    error_code throws;
-}
-namespace pika::detail {
-    [[noreturn]] void throw_exception(
-        error errcode, std::string const&, std::string const&, std::string const&, long)
-    {
-        verif_last_error[verif_tid()] = static_cast<int>(errcode);
-        throw verif_pika_error{static_cast<int>(errcode)};
-    }
-    void throws_if(pika::error_code& ec, error errcode, std::string const& msg, std::string const& func,
-        std::string const& file, long line)
-    {
-        verif_last_error[verif_tid()] = static_cast<int>(errcode);
-        if (&ec == &pika::throws) throw verif_pika_error{static_cast<int>(errcode)};
-        ec = error_code(errcode, throwmode::lightweight);
-    }
-}
-namespace verif_detail {
-    [[noreturn]] void throw_exception(pika::error errcode)
-    {
-        verif_last_error[verif_tid()] = static_cast<int>(errcode);
-        throw verif_pika_error{static_cast<int>(errcode)};
-    }
-    void throws_if(pika::error_code& ec, pika::error errcode)
-    {
-        verif_last_error[verif_tid()] = static_cast<int>(errcode);
-        if (&ec == &pika::throws) throw verif_pika_error{static_cast<int>(errcode)};
-        ec = pika::error_code(errcode, pika::throwmode::lightweight);
-    }
-}
-namespace pika::detail {
-    std::exception_ptr get_exception(error, std::string const&, throwmode, std::string const&,
-        std::string const&, long, std::string const&)
-    {
-        return std::exception_ptr();
-    }
-}    // namespace pika::detail
